@@ -2328,8 +2328,8 @@ safe_string(const uint8_t *buf, int size) {
 	const uint8_t *end = buf + size;
 	for(; buf < end; buf++) {
 		int ch = *buf;
-		if((ch < 0x20 || ch > 0x7e) || ch == '"')
-			return 0;
+		if((ch < 0x20 || ch > 0x7e) || ch == '"' || ch == '\\')
+			return 0;	/* Not to be pasted into a C string literal */
 	}
 	return 1;
 }
